@@ -87,6 +87,10 @@ func collect(root *expr.AttributeExpr, rootType expr.DataType) *collected {
 					c.vobjs = append(c.vobjs, o)
 					for _, nat := range *o {
 						c.vatts = append(c.vatts, nat.Attribute)
+						// types reachable through a view only (projections) are part of the copy too
+						if nat.Attribute != nil {
+							typ(nat.Attribute.Type)
+						}
 					}
 				}
 			}
